@@ -587,9 +587,12 @@ inductive Action
   | raiseUnhandled
   /-- `_write_raise_by_status_range(…, "Unhandled status code")` — the final catch-all (F15 repaired) -/
   | raiseCatchAll
+  /-- the `case _:` arm of a `default` response with content (F40 repaired):
+      `if 200 <= response.status_code < 300:` + `_write_strategy_based_return`, then `_write_raise_by_status_range(…, "Default error")` -/
+  | retDefault
   deriving DecidableEq, Repr
 
-/-- The arm ends in a `return` (or, for a streaming strategy, in the `yield` loop). -/
+/-- The arm ends in a `return` (or, for a streaming strategy, in the `yield` loop) whatever the status. -/
 def Action.isReturn : Action → Bool
   | .retNone => true
   | .retStrategy => true
@@ -636,7 +639,7 @@ def arms (rs : List Resp) : List (Nat × Action) :=
 /-- The `case _:` arm. -/
 def defaultAction (rs : List Resp) : Action :=
   match rs.find? (fun r => r.key.isDefault) with
-  | some d => if !d.content.isEmpty && !(resolveStrategy rs).isNone then .retStrategy else .raiseDefault
+  | some d => if !d.content.isEmpty && !(resolveStrategy rs).isNone then .retDefault else .raiseDefault
   | none => .raiseCatchAll
 
 /-- `match response.status_code:` — first arm with an equal literal, else `case _`. -/
@@ -650,7 +653,7 @@ def selectAction (rs : List Resp) (status : Nat) : Action :=
 /-- `yield` (a streaming strategy return is emitted) together with a `return <value>` arm. -/
 def hasYield (rs : List Resp) : Bool :=
   (resolveStrategy rs).isStreaming &&
-    ((processedPrimary rs).isSome || defaultAction rs == .retStrategy)
+    ((processedPrimary rs).isSome || defaultAction rs == .retDefault)
 
 def hasValueReturn (rs : List Resp) : Bool :=
   (otherResponses rs).any (fun r => r.key.code?.isSome && r.key.starts2)
@@ -1028,7 +1031,7 @@ def Strategy.usesStructure : Strategy → Bool
 
 def importsStructure (rs : List Resp) : Bool :=
   ((resolveStrategy rs).usesStructure &&
-   ((processedPrimary rs).isSome || defaultAction rs == .retStrategy)) ||
+   ((processedPrimary rs).isSome || defaultAction rs == .retDefault)) ||
   (otherResponses rs).any (fun r => match otherArm r with
     | some (_, .retSecondary k) => k.needsStructure
     | _ => false)
@@ -1044,6 +1047,9 @@ def runAction (rs : List Resp) (r : Reply) : Action → Outcome
   | .raiseDefault => .raised (rangeClass r.status) r.status true .defaultArm
   | .raiseUnhandled => .raised .httpError r.status true .unhandledArm
   | .raiseCatchAll => .raised (rangeClass r.status) r.status true .unhandledArm
+  | .retDefault =>
+    if 200 ≤ r.status ∧ r.status < 300 then returnOf rs (strategyRet (resolveStrategy rs) r)
+    else .raised (rangeClass r.status) r.status true .defaultArm
 
 /-- What the caller observes when the server answers `r` (the request itself went out). -/
 def handle (t : TransportKind) (op : Op) (r : Reply) : Outcome :=
